@@ -300,8 +300,10 @@ func qeMain(args []string) int {
 		}
 	}
 	runModule := "QE.Run"
-	if prof.bothModes && !prof.roundtrip {
-		runModule = "C07.Run" // adds the cross-mode comparison of the model's answers
+	if (prof.bothModes && !prof.roundtrip) || prof.name == "c06" {
+		// adds the cross-mode comparison of the model's answers and the internal observables
+		// (index pre-selection in store order: the precondition of C06's per-backend cut-off)
+		runModule = "C07.Run"
 	}
 	qeRunInputs(inputs, flags, meta, prof.roundtrip, runModule)
 	meta.write(flags.meta)
